@@ -107,9 +107,20 @@ def replay_mcops(out, prop, tier):
         desc = "enumerated call: op=%s flags=%s max=%s args=%s expected=%s observed=%s" % (
             c["op"], c["flags"], C.le_n(c["max"]), json.dumps(c["args"])[:200], json.dumps(e)[:200], json.dumps(got)[:200])
         both_ok = e.get("st") == "ok" and got.get("ok") is True
-        budget = "CostExceeded" in (e.get("kind"), got.get("kind"))
-        if prop == "C10" and not (both_ok or budget):
-            out.drift.append("outcome (not a cost clause): " + desc[:300])
+        cost_differs = both_ok and e.get("cost") != got.get("cost")
+        val_differs = both_ok and e.get("val") != got.get("val")
+        # which property does this enumerated mismatch belong to?
+        mine = False
+        if prop == "C10":
+            mine = cost_differs                      # a successful call charges another cost than documented
+        elif prop == "C11":
+            mine = val_differs                       # value differs under (at least) one cost model
+        elif prop == "C02":
+            # the budget equals the documented cost (or is unlimited) and the call is refused for cost
+            mine = e.get("st") == "ok" and got.get("ok") is False and got.get("kind") == "CostExceeded" \
+                and C.le_n(c["max"]) >= C.le_n(e["cost"])
+        if not mine:
+            out.drift.append("enumerated call differs (not a clause of %s): %s" % (prop, desc[:300]))
             continue
         v = C.Violation(prop, desc, {"mismatch": m})
         v.signature = "%s:mcops:%s" % (prop, C.sha256_str(json.dumps([c["op"], c["args"], c["flags"], c["max"]], sort_keys=True))[:12])
@@ -137,6 +148,15 @@ def _is_unknown_call(m):
 def check(prop, tier, seed):
     out = C.Outcome(prop)
     quick = tier == "quick"
+    if prop in ("C02", "C11"):
+        replay_mcops(out, prop, tier)
+        out.evaluations = out.traces
+        out.nontrivial = out.traces
+        out.rule = ("MCOps: every non-cryptographic operator x argument lists of arity 0..3 over a boundary alphabet x both cost "
+                    "models x budgets {unlimited, cost, cost-1}, enumerated by TLC with the expected outcome and replayed into "
+                    "ChiaDialect::op (exhaustive within the bound)")
+        out.exhaustive = True
+        return out
     plans = {
         "C06": [("malachite", 700 if quick else 12000, 6 if quick else 14)],
         "C09": [("unknown", 500 if quick else 6000, 6 if quick else 14), ("corpus", 0, 12)],
